@@ -44,7 +44,10 @@ THEOREMS = ['C07_plane_intersection_on_both', 'C07_plane_intersection_direction'
             'C07_hex_base_vectors_partial', 'C07_proj_par_meaning',
             'C07_hex_adjacency_geometry', 'C07_hex_base_vectors',
             'C07_base_vector_carries_opposite_plane',
-            'C07_regular_hexagon_in_family']
+            'C07_regular_hexagon_in_family', 'C07_domain_check_spec',
+            'C07_domain_check_guarded',
+            'C07_six_planes_trivial_range_refuted',
+            'C07_axial_range_without_vector_accepted', 'C07_lattice_vector']
 TRUSTED = [
     'hand-written model coq/C07/Model.v (modelled, tied by execution only)',
     'binary64 evaluation: the theorems are over R; the model is run at '
@@ -100,6 +103,10 @@ TIE_MODEL = {
               'pointInPlaneIntersection FS (fst (fst c)) (snd (fst c))'),
     'side': ('fvec * fplane * Z', 'check_side',
              'planeSide FS (fst (fst c)) (snd (fst c))'),
+    'domain': ('nat * list (Z * Z) * res unit', 'check_domain',
+               'domain_check (fst (fst c)) (snd (fst c))'),
+    'latvec': ('list fvec * list Z * fvec', 'check_latvec',
+               'latticeVector FS (fst (fst c)) (snd (fst c))'),
     'proj': ('fvec * fplane * fvec * res fvec', 'check_proj',
              'projectPointOnPlane FS (fst (fst (fst c))) (snd (fst (fst c))) '
              '(snd (fst c))'),
@@ -544,6 +551,21 @@ WITNESS_TRIVIAL_RANGE = '''six-plane hexagonal lattice, one row of elements
 '''
 
 
+def domain_deck(nvec, bounds, n_el):
+    """The regular prism of the witness, with or without caps, and the given
+    FILL ranges (all elements filled with universe 3)."""
+    text = WITNESS_TRIVIAL_RANGE.replace(
+        'fill=-1:1 0:0 0:0 3 3 3',
+        'fill=' + ' '.join(f'{lo}:{hi}' for lo, hi in bounds)
+        + ''.join('\n      ' + ' '.join(['3'] * min(20, n_el - k))
+                  for k in range(0, n_el, 20))
+        + '\n     ')
+    if nvec == 3:
+        text = text.replace('-304 306 u=1', '-304 306 -307 308 u=1')
+        text = text.replace('900 so 6', '307 pz 1\n308 pz -1\n900 so 6')
+    return text
+
+
 def finding_class(conv, meta):
     '''Narrow classes of findings/C07.txt.'''
     if (conv.exc == 'LatticeError'
@@ -787,7 +809,67 @@ def run(res, tier, seed, proofs_ok):
                                         for i, j in ks))))
         walk_meta.append((pairs, first, wout))
 
+    # develop_lattice's test of the ranges, through whole conversions of one
+    # fixed regular prism (six or eight planes) with every combination of four
+    # ranges; latticeVector directly
+    dom_cases, dom_meta = [], []
+    choices = [(0, 0), (-1, 1), (0, 1), (2, 2)]
+    combos = [(a, b, c) for a in choices for b in choices for c in choices]
+    if quick:
+        combos = rng.sample(combos, 24) + [((-1, 1), (0, 0), (0, 0)),
+                                           ((-1, 1), (0, 0), (-1, 1)),
+                                           ((-1, 1), (0, 1), (0, 0))]
+    for nvec in (2, 3):
+        for bounds in combos:
+            n_el = 1
+            for lo, hi in bounds:
+                n_el *= hi - lo + 1
+            text = domain_deck(nvec, bounds, n_el)
+            conv = convert_watchdog(text, 15.0)
+            res.seen(text)
+            if conv.ok:
+                out = ('ok', None)
+            elif (conv.exc == 'LatticeError'
+                  and 'Problem of domain definition' in conv.msg):
+                out = ('err', 'ELattice')
+            else:
+                out = ('err', 'EAssert')     # anything else: never expected
+                res.violation('impl-violation',
+                              f'regular prism with {nvec + 4 if nvec == 2 else 8}'
+                              f' planes and FILL ranges {bounds}: {conv.exc}: '
+                              f'{conv.msg[:150]}',
+                              {'input': {'deck': text}}, found_input=True)
+            valid = nvec == 3 or bounds[2][0] == bounds[2][1]
+            res.count(f'ranges: MCNP-{"valid" if valid else "invalid"}, '
+                      f'{"accepted" if conv.ok else "rejected"}')
+            if valid and out[0] == 'err' and out[1] == 'ELattice':
+                meta_d = {'caps': nvec == 3, 'ranges': list(bounds)}
+                res.violation('impl-violation',
+                              f'LAT=2 cell with {"eight" if nvec == 3 else "six"} '
+                              f'planes and FILL ranges {bounds} rejected: '
+                              f'{conv.msg[:120]}',
+                              {'input': {'deck': text}},
+                              cls=finding_class(conv, meta_d),
+                              found_input=True)
+            dom_cases.append(cpair(
+                cnat(nvec), clist(cpair(cz(lo), cz(hi)) for lo, hi in bounds),
+                cres(out, lambda _v: 'tt')))
+            dom_meta.append((nvec, bounds, out))
+    lv_cases, lv_meta = [], []
+    for _ in range(200):
+        base = [tuple(rng.choice([0.0, 1.0, -2.5, rng.uniform(-3, 3)])
+                      for _ in range(3)) for _ in range(rng.randint(1, 3))]
+        index = tuple(rng.randint(-4, 4) for _ in range(rng.randint(1, 3)))
+        got = LT.latticeVector(base, index)
+        lv_cases.append(cpair(clist(cvec(v) for v in base),
+                              clist(cz(i) for i in index), cvec(got)))
+        lv_meta.append((base, index, got))
+
     ties = [
+        ('domain', 'c07_domain', TIE_MODEL['domain'][0], 'check_domain',
+         dom_cases, dom_meta, 'domain_check (develop_lattice)'),
+        ('latvec', 'c07_latvec', TIE_MODEL['latvec'][0], 'check_latvec',
+         lv_cases, lv_meta, 'latticeVector FS'),
         ('walk', 'c07_walk',
          'list (nat * nat) * nat * res (list (nat * nat))', 'check_walk',
          walk_cases, walk_meta, 'hex_vertices_abs (loop of hexVertices)'),
